@@ -275,6 +275,17 @@ func genC09(t *rapid.T) c09Case {
 		body = append(body, mj.Text("|"))
 	}
 	caller.Body = body
+	if g.n(0, 3, "late") == 0 {
+		// some callees appear only after the set has already been used once
+		for _, f := range g.p.Files[2:] {
+			if g.n(0, 1, "isLate") == 0 {
+				g.p.Late = append(g.p.Late, f.Path)
+			}
+		}
+		if len(g.p.Late) > 0 {
+			g.labels["callees-created-after-a-first-execution"] = true
+		}
+	}
 	c := c09Case{Prog: g.p}
 	src := mj.NewPrinter().Sources(g.p)
 	var paths []string
@@ -329,7 +340,7 @@ func judgeC09(c c09Case) (v core.Verdict) {
 
 func TestC09(t *testing.T) {
 	core.Run(t, "C09",
-		"template sets with files in nested directories: call sites of include (absolute, ./ and ../ relative, computed names; with/without context), exec (with/without context; callee with return at every position: none, top, several, in if, in range, in try/catch, followed by statements that return nothing, return nil, inside an included sub-template) and includeIfExists (existing, missing, unparsable; as statement and as condition), placed at depth 0-3 inside range / block / try / other includes; callees extend 0-2 levels, declare variables, rebind '.', define blocks, yield the caller's blocks, assign the caller's variables; probes after every call site; oracle = MiniJet reference interpreter; non-trivial = call site at depth>=2 with a callee that rebinds '.' / an exec / an explicit context",
+		"template sets with files in nested directories: call sites of include (absolute, ./ and ../ relative, computed names; with/without context), exec (with/without context; callee with return at every position: none, top, several, in if, in range, in try/catch, followed by statements that return nothing, return nil, inside an included sub-template) and includeIfExists (existing, missing, unparsable; as statement and as condition), placed at depth 0-3 inside range / block / try / other includes; callees extend 0-2 levels, declare variables, rebind '.', define blocks, yield the caller's blocks, assign the caller's variables; probes after every call site; one case in four with some callee files created only after a first execution of the set; oracle = MiniJet reference interpreter; non-trivial = call site at depth>=2 with a callee that rebinds '.' / an exec / an explicit context",
 		genC09, judgeC09)
 }
 
